@@ -145,7 +145,7 @@ def isPrivHost (host : Str) : Bool :=
     | some (a, b, c, d) => isPrivateOrReservedIpv4 a b c d
     | none =>
       let lowered := lower host
-      if kReservedNames.any (·.toList == lowered) then true
+      if kReservedNamesExact.any (·.toList == host) || kReservedNames.any (·.toList == lowered) then true
       else if host.contains ':' || lowered.contains ':' then isPrivV6 host
       else false
 
